@@ -164,7 +164,7 @@ def write_evidence(prop, tier, seed, stats, viols, unknown, knownhits, wall, ext
         if stats.get("cases", 0):
             cov["evaluations"] = int(stats.get("cases", 0))
     else:
-        cases = int(stats.get("cases", 0)) or int(stats.get("transitions", 0))
+        cases = int(counters.get("evaluations", 0)) or int(stats.get("cases", 0)) or int(stats.get("transitions", 0))
         cov.update({
             "evaluations": cases,
             "distinct_nontrivial": int(counters.get("distinct_nontrivial", stats.get("distinct_outcomes", 0))),
@@ -176,6 +176,8 @@ def write_evidence(prop, tier, seed, stats, viols, unknown, knownhits, wall, ext
     rule = stats.get("rule_text")
     if rule:
         cov["rule"] = rule
+    for k in ("evaluations", "distinct_nontrivial", "_rule"):
+        counters.pop(k, None)
     ev = {
         "property_id": prop, "tier": tier, "seed": seed, "level": level, "coverage": cov,
         "assumptions": [
